@@ -5,12 +5,14 @@ Run:  lake exe driver < ops.txt     (or `lake env lean --run Driver.lean`)
 -/
 import Smpl.Drv.Codec
 import Smpl.Drv.Filter
+import Smpl.Drv.Alloc
 open Smpl.Drv
 
 def dispatch (line : String) : String :=
   match (line.splitOn " ").filter (· ≠ "") with
   | "codec" :: rest => codecOp rest
   | "filter" :: rest => filterOp rest
+  | "fat" :: rest => allocOp rest
   | _ => "bad-op"
 
 partial def loop (hin hout : IO.FS.Stream) : IO Unit := do
